@@ -33,7 +33,7 @@ Definition row_ok (s : site) : bool :=
   | AccUserSelf | AccUserOther | AccSelected | AccRole | AccShared =>
       s_auth s || (s_tls s && s_ok200 s)
   | Backend => s_tls s
-  | SetAuth => s_tls s && s_ok200 s
+  | SetAuth => s_tls s && s_ok200 s && is_login (s_cmd s)
   | UseSel => s_auth s && s_sel s
   | SetSel => is_select (s_cmd s)
   | SetField => is_select (s_cmd s) || (s_tls s && s_ok200 s)
@@ -94,6 +94,7 @@ Proof.
   all: try (eexists; split; [reflexivity|]; constructor; [|constructor]; simpl; auto).
   - (* Backend *) rewrite <- Htls. apply Et'. exact Hrow.
   - (* SetAuth *)
+    apply andb_true_iff in Hrow. destruct Hrow as [Hrow _].
     apply andb_true_iff in Hrow. destruct Hrow as [H1 H2].
     assert (T : c_tls st0 = true) by (rewrite <- Htls; apply Et'; exact H1).
     assert (O : e_ok200 e = true) by (apply Eo'; exact H2).
@@ -169,6 +170,7 @@ Proof.
     { inversion Hs; subst. split; [split; simpl; intros; auto | constructor]. }
     inversion Hs; subst; split; [exact HI | constructor]. }
   destruct (fold_left (visit e) (e_visits e) (Some (st, []))) as [[s1 e1]|] eqn:F; [|discriminate].
+  destruct (f_auth_final t && existsb _ e1 && negb (e_reply_ok e)); [discriminate|].
   inversion Hs; subst; clear Hs.
   assert (Rows : forall v, In v (e_visits e) -> row_ok v = true).
   { intros v Hv. apply (guards_ok_row t G). apply (visits_in_table_in t w e VT v Hv). }
@@ -290,7 +292,7 @@ Qed.
     behaviour of the tree before the fix; kept as a regression witness) *)
 Lemma unfixed_failed_select_keeps :
   let st := mk_c true true true 1 false 0 (Personal 1) [] in
-  let e := mk_env false 0 [] (fun _ _ => false) 0 0 [] (TPersonal false) false in
+  let e := mk_env false 0 [] (fun _ _ => false) 0 0 [] (TPersonal false) false false in
   select_succeeds st e = false /\ c_sel (fst (do_select false st e)) = true.
 Proof. vm_compute. split; reflexivity. Qed.
 
@@ -307,3 +309,82 @@ Qed.
 
 Lemma tag_only_line_untagged t : tagged_for_line t (S_ "a1") = (0, 0) /\ classify_line (S_ "a1") = LUntaggedBad.
 Proof. split; vm_compute; reflexivity. Qed.
+
+(** ---------- the session becomes authenticated only in a login line that is
+    answered OK, on TLS, after a 200 ---------- *)
+
+Definition has_authd (evs : list event) : bool :=
+  existsb (fun ev => match ev with Authd _ => true | _ => false end) evs.
+
+Lemma visit_auth_source e st evs s st' evs' :
+  visit e (Some (st, evs)) s = Some (st', evs') ->
+  (c_auth st' = true -> c_auth st = true \/ (kind_eqb (s_kind s) SetAuth = true /\ has_authd evs' = true))
+  /\ (has_authd evs = true -> has_authd evs' = true).
+Proof.
+  unfold visit. destruct (enabled st e s); [|discriminate].
+  intro H. inversion H; subst; clear H. unfold has_authd.
+  destruct (s_kind s); simpl; rewrite ?existsb_app; simpl; rewrite ?orb_true_r, ?orb_false_r; split; auto;
+    try (intro A; left; exact A); try (intro A; rewrite A; reflexivity).
+Qed.
+
+Lemma visits_auth_source e : forall vs st evs st' evs',
+  fold_left (visit e) vs (Some (st, evs)) = Some (st', evs') ->
+  (c_auth st' = true -> c_auth st = true \/ (has_authd evs' = true /\ exists v, In v vs /\ kind_eqb (s_kind v) SetAuth = true))
+  /\ (has_authd evs = true -> has_authd evs' = true).
+Proof.
+  induction vs as [|v vs IH]; intros st evs st' evs' Hf.
+  - simpl in Hf. inversion Hf; subst. split; auto.
+  - cbn [fold_left] in Hf.
+    destruct (visit e (Some (st, evs)) v) as [[st1 evs1]|] eqn:V.
+    + destruct (visit_auth_source e st evs v st1 evs1 V) as [A1 M1].
+      destruct (IH st1 evs1 st' evs' Hf) as [A2 M2]. split.
+      * intro A. destruct (A2 A) as [B|[B [x [Hx Kx]]]].
+        -- destruct (A1 B) as [C|[K C]]; [left; exact C|].
+           right. split; [apply M2; exact C|]. exists v. split; [left; reflexivity | exact K].
+        -- right. split; [exact B|]. exists x. split; [right; exact Hx | exact Kx].
+      * intro H. apply M2. apply M1. exact H.
+    + exfalso. clear -Hf. induction vs as [|x xs IHx]; cbn [fold_left] in Hf; [discriminate|]. apply IHx. exact Hf.
+Qed.
+
+Lemma has_authd_in evs : has_authd evs = true -> exists u, In (Authd u) evs.
+Proof.
+  unfold has_authd. rewrite existsb_exists. intros [ev [Hin H]]. destruct ev; try discriminate. exists u. exact Hin.
+Qed.
+
+Lemma auth_only_by_accepted_login t st w e st' evs :
+  guards_ok t = true -> f_auth_final t = true -> Inv st ->
+  step t st w e = Some (st', evs) -> c_auth st = false -> c_auth st' = true ->
+  is_login w = true /\ e_reply_ok e = true /\ c_tls st = true /\ e_ok200 e = true.
+Proof.
+  intros G AF HI Hs A0 A1.
+  destruct (step_ok t st w e st' evs G HI Hs) as [_ EV].
+  unfold step in Hs.
+  destruct (visits_in_table t w e) eqn:VT; simpl in Hs; [|discriminate].
+  destruct (is_select w) eqn:SEL.
+  { exfalso. destruct (do_select (f_select_clears t) st e) as [s1 e1] eqn:D. inversion Hs; subst.
+    unfold do_select in D. rewrite A0 in D. simpl in D. inversion D; subst. congruence. }
+  destruct (String.eqb w "STARTTLS") eqn:ST.
+  { exfalso. destruct (c_tls st); [inversion Hs; subst; congruence|].
+    destruct (e_handshake e); simpl in Hs; [|inversion Hs; subst; congruence].
+    destruct (find _ _) as [s|]; [|inversion Hs; subst; congruence].
+    destruct (String.eqb (s_arg s) "fresh,tlsConn"); [inversion Hs; subst; simpl in A1; discriminate|].
+    destruct (String.eqb (s_arg s) "stale,tlsConn"); inversion Hs; subst; simpl in A1; congruence. }
+  destruct (fold_left (visit e) (e_visits e) (Some (st, []))) as [[s1 e1]|] eqn:F; [|discriminate].
+  destruct (visits_auth_source e (e_visits e) st [] s1 e1 F) as [Src _].
+  destruct (f_auth_final t && has_authd e1 && negb (e_reply_ok e)) eqn:FIN;
+    [unfold has_authd in FIN; rewrite FIN in Hs; discriminate|].
+  unfold has_authd in FIN. rewrite FIN in Hs. fold (has_authd e1) in FIN.
+  inversion Hs; subst; clear Hs.
+  assert (A1' : c_auth s1 = true).
+  { destruct (is_unselect w && c_auth st && c_sel st); simpl in A1; exact A1. }
+  destruct (Src A1') as [B|[HA [v [Hv Kv]]]]; [congruence|].
+  destruct (visits_in_table_in t w e VT v Hv) as [Hin Hc].
+  pose proof (guards_ok_row t G v Hin) as Row. unfold row_ok in Row.
+  apply kind_eqb_eq in Kv. rewrite Kv in Row.
+  rewrite !andb_true_iff in Row. destruct Row as [_ Rl]. rewrite Hc in Rl.
+  assert (RO : e_reply_ok e = true).
+  { rewrite AF, HA in FIN. simpl in FIN. destruct (e_reply_ok e); [reflexivity | discriminate]. }
+  destruct (has_authd_in evs HA) as [u Hu].
+  rewrite Forall_forall in EV. specialize (EV _ Hu). simpl in EV.
+  tauto.
+Qed.
